@@ -104,14 +104,23 @@ pub fn gen_case2(prop: &str, seed: u64, run: u64) -> Case2 {
     if fns.iter().all(|f| spec(*f).flavour == Flavour::Async) && r.chance(1, 3) {
         steps.push(-SEC);
     }
+    // per-run key alphabet of each function: a random subset a little larger than its capacity
+    let mut alphabet: std::collections::BTreeMap<u16, Vec<Key>> = Default::default();
+    for f in &fns {
+        let s = spec(*f);
+        let cap = s.limit.unwrap_or(3);
+        let nk = (s.nkeys as usize).min(cap + 3);
+        let mut all: Vec<Key> = (0..s.nkeys).collect();
+        r.shuffle(&mut all);
+        all.truncate(nk);
+        alphabet.insert(*f, all);
+    }
     let mut ops = Vec::new();
     for _ in 0..len {
         match r.weighted(&[w_call, w_adv, w_group, w_with, w_reset, w_respawn]) {
             0 => {
                 let f = *r.pick(&fns);
                 let s = spec(f);
-                let cap = s.limit.unwrap_or(3);
-                let nk = (s.nkeys as u64).min(cap as u64 + 3);
                 let size = match s.max_memory {
                     None => r.below(9) as u32,
                     Some(m) => {
@@ -127,7 +136,7 @@ pub fn gen_case2(prop: &str, seed: u64, run: u64) -> Case2 {
                 ops.push(Op2::Call {
                     a: if actors > 0 { r.below(actors as u64) as u8 } else { 0 },
                     f,
-                    k: r.below(nk) as Key,
+                    k: *r.pick(&alphabet[&f]),
                     err: s.is_result && r.chance(2, 5),
                     size,
                     shape: r.below(8) as u8,
